@@ -432,3 +432,25 @@ class Result:
             self.pid, self.tier, self.states, self.traces, self.evaluations,
             cov["distinct_nontrivial"], wall))
         return 0
+
+
+def run_vh_parallel(vh, args, cases, n=8, timeout=2400, env=None):
+    """split the cases over n harness processes; merge failures and summaries"""
+    from concurrent.futures import ThreadPoolExecutor
+    if not cases:
+        return [], {"executions": 0, "cases": 0, "failures": 0}, []
+    n = max(1, min(n, len(cases)))
+    chunks = [cases[i::n] for i in range(n)]
+    with ThreadPoolExecutor(max_workers=n) as ex:
+        rs = list(ex.map(lambda ch: run_vh(vh, args, ch, timeout=timeout, env=env), chunks))
+    fails, other = [], []
+    summ = {}
+    for f, s, o in rs:
+        fails += f
+        other += o
+        for k, v in s.items():
+            if isinstance(v, bool):
+                summ[k] = v
+            elif isinstance(v, (int, float)):
+                summ[k] = summ.get(k, 0) + v
+    return fails, summ, other
